@@ -291,8 +291,9 @@ impl Session {
                 Ok(())
             }
             "Crash" => {
-                // the process dies: memory is lost without running any destructor, the bytes remain
-                let bytes = self.med.snap();
+                // the machine dies: memory is lost without running any destructor, and of the medium only
+                // what it held at its last flush() remains
+                let bytes = self.med.snap_durable();
                 if let Some(p) = self.pkg.take() {
                     std::mem::forget(p);
                 }
